@@ -581,11 +581,15 @@ impl<T> DataReaderEntity<T> {
                     x.last_received_time = reception_timestamp;
                 }
             }
-            None => self.instance_ownership.push(InstanceOwnership {
-                instance_handle: change_instance_handle,
-                last_received_time: reception_timestamp,
-                owner_handle: sample_writer_guid,
-            }),
+            // A dispose or unregister releases the instance: it must not be recorded as owned again
+            None if matches!(change_kind, ChangeKind::Alive | ChangeKind::AliveFiltered) => {
+                self.instance_ownership.push(InstanceOwnership {
+                    instance_handle: change_instance_handle,
+                    last_received_time: reception_timestamp,
+                    owner_handle: sample_writer_guid,
+                })
+            }
+            None => (),
         }
         Ok(AddChangeResult::Added)
     }
